@@ -304,7 +304,7 @@ def check_driver_worlds(F, res):
         if drv not in F.hir:
             res.bad('driver/%s/missing' % d, 'traversal driver not found')
             continue
-        nop = local_policy(F, drv, public_events=True, events=[r'Vec::push$'])
+        nop = local_policy(F, drv, public_events=True, events=[r'Vec::push$', r'::extend$'])
         try:
             ws = Evaluator(F, nop).run_fn(drv, [sym('visitor'), sym('func'), sym('start')])
         except EvalError as e:
@@ -353,7 +353,19 @@ def check_driver_worlds(F, res):
                            'the rest of the sequence would never be visited' % (d, exits[0]['callee'], var[0] if var else 'an instruction'))
                     continue
             # what is scheduled, and in which (LIFO) order
-            pushes = [show(e['args'][1]) for c, dp, e in calls if c == 'push']
+            pushes = []
+            for c, dp, e in calls:
+                if c == 'push':
+                    pushes.append(show(e['args'][1]))
+                elif c == 'extend' and len(e['args']) == 2:
+                    # extending the stack with an Option: one push when it is Some, nothing when it is None
+                    x = e['args'][1]
+                    if isinstance(x, tuple) and x[0] == 'ctor' and x[2] == 'Some':
+                        pushes.append(show(x[3][0][1]))
+                    elif x == ('ctor', 'std::option::Option', 'None', ()):
+                        pass
+                    else:
+                        pushes.append('extend(%s)' % show(x))
             want = {'Block': ['.Block.0.seq'], 'Loop': ['.Loop.0.seq'], 'IfElse': ['.IfElse.0.alternative', '.IfElse.0.consequent']}
             kids = want.get(var[0], []) if var else []
             allk = [k for ks in want.values() for k in ks]
@@ -362,8 +374,9 @@ def check_driver_worlds(F, res):
                 okp = len(pushes) == len(kids) and all(is_kid(p, k) for p, k in zip(pushes, kids))
             elif owner:
                 resume = pushes[0] if pushes else ''
+                fresh = lambda p: re.search(r'(, |: )0[)}]$', p) is not None      # entered at index 0
                 okp = len(pushes) == len(kids) + 1 and ' Add 1)' in resume and not any(k in resume for k in allk) \
-                    and 'pop(' in resume and all(is_kid(p, k) and ' Add ' not in p for p, k in zip(pushes[1:], kids))
+                    and 'pop(' in resume and not fresh(resume) and all(is_kid(p, k) and fresh(p) for p, k in zip(pushes[1:], kids))
             else:
                 okp = not pushes
             if var and not okp:
